@@ -146,6 +146,10 @@ def check_state(acc, kind, arch, params):
                         got = call(ts.KL, st, tgt, space, bases=bl)
                     else:
                         got = call(ts.KL, st, c2t(t), space, bases=bl)
+                        if tn in ("own", "generic0", "generic1") and (bl is None or len(bl) == 1):
+                            got_ns = call(ts.KL, st, c2t(t), bases=bl)  # space omitted
+                            if not (isinstance(got_ns, float) and isinstance(got, float) and abs(got_ns - got) <= 1e-12):
+                                bad("KL:space-omitted-differs", what, got_ns, got)
                     acc.ev(1, nontrivial=True)
                     sig_q = f"{'bases-none' if bl is None else 'bases'}:{'mixed' if kind == 'mixed' else 'pure'}:{form}"
                     if not isinstance(got, float) or not math.isfinite(got):
@@ -175,6 +179,10 @@ def check_state(acc, kind, arch, params):
                         bb = np.array([list(b) for b in bs])
                     want = -sum(math.log(born_m(b)[pool[i][0]]) for i, b in zip(rows, bs)) / r
                     got = call(ts.NLL, st, sam, space, sample_bases=bb)
+                    if r == 2:
+                        got_ns = call(ts.NLL, st, sam, sample_bases=bb)  # space omitted
+                        if not (type(got_ns) is type(got) and abs(float(got_ns) - float(got)) <= 1e-12):
+                            bad("NLL:space-omitted-differs", dict(metric="NLL", rows=[pool[i] for i in rows], mode=mode), got_ns, got)
                     acc.ev(1, nontrivial=mode == "bases")
                     what = dict(metric="NLL", rows=[pool[i] for i in rows], mode=mode)
                     if not isinstance(got, float):
